@@ -90,7 +90,8 @@ fn observer(s: u32, a: usize, _b: usize) {
     }
 }
 
-const VALID: [c_int; 6] = [libc::SIGUSR1, libc::SIGUSR2, libc::SIGHUP, libc::SIGWINCH, libc::SIGALRM, libc::SIGURG];
+// includes the first and the last real-time signal of this platform (34 and 64 with glibc): the ends of every table indexed by signal number
+const VALID: [c_int; 8] = [libc::SIGUSR1, libc::SIGUSR2, libc::SIGHUP, libc::SIGWINCH, libc::SIGALRM, libc::SIGURG, 64, 34];
 
 fn gen_script(rng: &mut Rng, reject: c_int) -> Vec<Step> {
     let mut sc = Vec::new();
@@ -557,7 +558,7 @@ pub fn main(args: &[String]) -> i32 {
         if seen.insert(s.clone()) {
             emit_violation("C12", s, d);
             nviol += 1;
-            if d.contains("still ran after it and its handles were dropped") {
+            if d.contains("still ran after it and its handles were dropped") || d.contains("after the instance and all handles are gone a delivery still ran") {
                 // removal by dropping the owner returned, yet one of its actions starts again (C01)
                 emit_violation("C01", "action-runs-after-owner-drop", d);
             }
